@@ -119,6 +119,17 @@ func genPinch(r *RNG, G int64) (clip.Paths64, clip.Paths64) {
 }
 
 func cmdC04(r *RNG, n int, e *Emitter, args []string) {
+	if len(args) > 0 {
+		for i, cc := range loadCorpusC01(args[0]) {
+			var cl clip.Paths64
+			if !cc.ClipNil {
+				cl = pathsFromJSON(cc.Clip)
+			}
+			for v := 0; v < 2; v++ {
+				emitC04(e, fmt.Sprintf("corpus%d.%d", i, v), pathsFromJSON(cc.Subject), cl, clip.ClipType(cc.Ct), clip.FillRule(cc.Fr), GenInfo{Kinds: []string{"corpus:" + cc.Note}}, v == 0)
+			}
+		}
+	}
 	for i := 0; i < n; i++ {
 		takeDiscards()
 		G := []int64{12, 20, 40, 100, 400}[r.Intn(5)]
@@ -155,104 +166,108 @@ func cmdC04(r *RNG, n int, e *Emitter, args []string) {
 		if pinch && r.Intn(3) > 0 {
 			ct = clip.Difference
 		}
-		var flat clip.Paths64
-		var nodes []treeNode
-		api := "BooleanOpPolyTree64"
-		perr := safeCall(func() {
-			flat = clip.BooleanOpPaths64(ct, s, c, fr)
-			if r.Bool() {
-				walkTree(clip.BooleanOpPolyTree64(ct, s, c, fr).PolyPathBase, -1, &nodes)
-			} else {
-				api = "Clipper64.ExecutePolyTree64"
-				cl := clip.NewClipper64()
-				cl.AddPaths(s, clip.Subject, false)
-				cl.AddPaths(c, clip.Clip, false)
-				t := clip.NewPolyTree64()
-				var od clip.PathsD
-				cl.ExecutePolyTree64(ct, fr, t, &od)
-				walkTree(t.PolyPathBase, -1, &nodes)
+		emitC04(e, fmt.Sprint(i), s, c, ct, fr, info, r.Bool())
+	}
+}
+
+func emitC04(e *Emitter, id string, s, c clip.Paths64, ct clip.ClipType, fr clip.FillRule, info GenInfo, useWrapper bool) {
+	var flat clip.Paths64
+	var nodes []treeNode
+	api := "BooleanOpPolyTree64"
+	perr := safeCall(func() {
+		flat = clip.BooleanOpPaths64(ct, s, c, fr)
+		if useWrapper {
+			walkTree(clip.BooleanOpPolyTree64(ct, s, c, fr).PolyPathBase, -1, &nodes)
+		} else {
+			api = "Clipper64.ExecutePolyTree64"
+			cl := clip.NewClipper64()
+			cl.AddPaths(s, clip.Subject, false)
+			cl.AddPaths(c, clip.Clip, false)
+			t := clip.NewPolyTree64()
+			var od clip.PathsD
+			cl.ExecutePolyTree64(ct, fr, t, &od)
+			walkTree(t.PolyPathBase, -1, &nodes)
+		}
+	})
+	meta := map[string]any{"subject": pathsJSON(s), "clip": pathsJSON(c), "clip_nil": false, "ct": int(ct), "fr": int(fr), "gen": info, "api": api}
+	if perr != "" {
+		meta["panic"], meta["kind"] = perr, "panic"
+		e.Fail(meta)
+		return
+	}
+	meta["flat"], meta["nodes"] = pathsJSON(flat), nodes
+	// (a) same polygons, each exactly once (as cyclic vertex sequences)
+	canon := func(p [][2]int64) string {
+		if len(p) == 0 {
+			return ""
+		}
+		k := 0
+		for j := range p {
+			if p[j][0] < p[k][0] || (p[j][0] == p[k][0] && p[j][1] < p[k][1]) {
+				k = j
 			}
-		})
-		meta := map[string]any{"subject": pathsJSON(s), "clip": pathsJSON(c), "clip_nil": false, "ct": int(ct), "fr": int(fr), "gen": info, "api": api}
-		if perr != "" {
-			meta["panic"], meta["kind"] = perr, "panic"
-			e.Fail(meta)
-			continue
 		}
-		meta["flat"], meta["nodes"] = pathsJSON(flat), nodes
-		// (a) same polygons, each exactly once (as cyclic vertex sequences)
-		canon := func(p [][2]int64) string {
-			if len(p) == 0 {
-				return ""
+		return fmt.Sprint(append(append([][2]int64{}, p[k:]...), p[:k]...))
+	}
+	var a, b []string
+	for _, p := range flat {
+		a = append(a, canon(pathJSON(p)))
+	}
+	for _, nd := range nodes {
+		b = append(b, canon(nd.Poly))
+	}
+	sort.Strings(a)
+	sort.Strings(b)
+	if fmt.Sprint(a) != fmt.Sprint(b) {
+		meta["kind"] = "the polygons stored in the PolyTree are not the closed paths of the flat result"
+		e.Fail(meta)
+		return
+	}
+	// level / IsHole consistency of the node API
+	bad := ""
+	maxLevel := 0
+	for _, nd := range nodes {
+		pl := 0
+		if nd.Parent >= 0 {
+			pl = nodes[nd.Parent].Level
+		}
+		if nd.Level != pl+1 {
+			bad = "Level() is not parent level + 1"
+		}
+		if nd.IsHole != (nd.Level%2 == 0) {
+			bad = "IsHole() does not alternate with the nesting level"
+		}
+		maxLevel = max(maxLevel, nd.Level)
+	}
+	if bad != "" {
+		meta["kind"] = bad
+		e.Fail(meta)
+		return
+	}
+	e.Count(fmt.Sprintf("nodes<=%d", bucket(len(nodes))))
+	e.Count(fmt.Sprintf("depth=%d", maxLevel))
+	e.Case("c04-"+id, "noop", meta)
+	if maxLevel >= 2 {
+		e.Nontrivial(id)
+	}
+	if len(nodes) > 14 {
+		return
+	}
+	// (b) every node inside its parent; (c) siblings disjoint
+	for k, nd := range nodes {
+		pk := pathsFromJSON([][][2]int64{nd.Poly})
+		if nd.Parent >= 0 {
+			pp := pathsFromJSON([][][2]int64{nodes[nd.Parent].Poly})
+			line, _ := genLine("imp", "4", []clip.Paths64{pk, pp}, append(clonePaths(pk), pp...), nil)
+			e.Case(fmt.Sprintf("c04-%s.p%d", id, k), line, map[string]any{"subject": meta["subject"], "clip": meta["clip"], "ct": int(ct), "fr": int(fr), "clip_nil": false, "what": "parent", "node": nd.Poly, "other": nodes[nd.Parent].Poly, "nodes": nodes})
+		}
+		for k2 := k + 1; k2 < len(nodes); k2++ {
+			if nodes[k2].Parent != nd.Parent {
+				continue
 			}
-			k := 0
-			for j := range p {
-				if p[j][0] < p[k][0] || (p[j][0] == p[k][0] && p[j][1] < p[k][1]) {
-					k = j
-				}
-			}
-			return fmt.Sprint(append(append([][2]int64{}, p[k:]...), p[:k]...))
-		}
-		var a, b []string
-		for _, p := range flat {
-			a = append(a, canon(pathJSON(p)))
-		}
-		for _, nd := range nodes {
-			b = append(b, canon(nd.Poly))
-		}
-		sort.Strings(a)
-		sort.Strings(b)
-		if fmt.Sprint(a) != fmt.Sprint(b) {
-			meta["kind"] = "the polygons stored in the PolyTree are not the closed paths of the flat result"
-			e.Fail(meta)
-			continue
-		}
-		// level / IsHole consistency of the node API
-		bad := ""
-		maxLevel := 0
-		for _, nd := range nodes {
-			pl := 0
-			if nd.Parent >= 0 {
-				pl = nodes[nd.Parent].Level
-			}
-			if nd.Level != pl+1 {
-				bad = "Level() is not parent level + 1"
-			}
-			if nd.IsHole != (nd.Level%2 == 0) {
-				bad = "IsHole() does not alternate with the nesting level"
-			}
-			maxLevel = max(maxLevel, nd.Level)
-		}
-		if bad != "" {
-			meta["kind"] = bad
-			e.Fail(meta)
-			continue
-		}
-		e.Count(fmt.Sprintf("nodes<=%d", bucket(len(nodes))))
-		e.Count(fmt.Sprintf("depth=%d", maxLevel))
-		e.Case(fmt.Sprintf("c04-%d", i), "noop", meta)
-		if maxLevel >= 2 {
-			e.Nontrivial(fmt.Sprint(i))
-		}
-		if len(nodes) > 14 {
-			continue
-		}
-		// (b) every node inside its parent; (c) siblings disjoint
-		for k, nd := range nodes {
-			pk := pathsFromJSON([][][2]int64{nd.Poly})
-			if nd.Parent >= 0 {
-				pp := pathsFromJSON([][][2]int64{nodes[nd.Parent].Poly})
-				line, _ := genLine("imp", "4", []clip.Paths64{pk, pp}, append(clonePaths(pk), pp...), nil)
-				e.Case(fmt.Sprintf("c04-%d.p%d", i, k), line, map[string]any{"subject": meta["subject"], "clip": meta["clip"], "ct": int(ct), "fr": int(fr), "clip_nil": false, "what": "parent", "node": nd.Poly, "other": nodes[nd.Parent].Poly, "nodes": nodes})
-			}
-			for k2 := k + 1; k2 < len(nodes); k2++ {
-				if nodes[k2].Parent != nd.Parent {
-					continue
-				}
-				p2 := pathsFromJSON([][][2]int64{nodes[k2].Poly})
-				line, _ := genLine("disj", "4", []clip.Paths64{pk, p2}, append(clonePaths(pk), p2...), nil)
-				e.Case(fmt.Sprintf("c04-%d.s%d.%d", i, k, k2), line, map[string]any{"subject": meta["subject"], "clip": meta["clip"], "ct": int(ct), "fr": int(fr), "clip_nil": false, "what": "sibling", "node": nd.Poly, "other": nodes[k2].Poly, "nodes": nodes})
-			}
+			p2 := pathsFromJSON([][][2]int64{nodes[k2].Poly})
+			line, _ := genLine("disj", "4", []clip.Paths64{pk, p2}, append(clonePaths(pk), p2...), nil)
+			e.Case(fmt.Sprintf("c04-%s.s%d.%d", id, k, k2), line, map[string]any{"subject": meta["subject"], "clip": meta["clip"], "ct": int(ct), "fr": int(fr), "clip_nil": false, "what": "sibling", "node": nd.Poly, "other": nodes[k2].Poly, "nodes": nodes})
 		}
 	}
 }
